@@ -115,4 +115,13 @@ def edgeEq (directed : Bool) (a b : K × K × Int) : Bool :=
   if directed then a.1 = b.1 && a.2.1 = b.2.1 else a.2.2 = b.2.2
 def edgeCmp (a b : K × K × Int) : Ordering := compare a.2.2 b.2.2
 
+/-- `Node::sizeof` as the code computes it: a fixed part, plus the *number* of incoming entries, plus the number of
+    outgoing entries times the size of one entry (`inbound.len() + outbound.len() * entry + fixed`; the incoming
+    length is not multiplied - that is what the code says) -/
+def nodeSizeof (s : Store K E) (c0 c1 : Nat) (k : K) : Nat :=
+  (s.get k).inn.length + (s.get k).out.length * c1 + c0
+/-- `Graph::sizeof`: the members' sizes plus one key each -/
+def graphSizeof (s : Store K E) (c0 c1 ck : Nat) (members : List K) : Nat :=
+  (members.map fun k => nodeSizeof s c0 c1 k + ck).sum
+
 end G
